@@ -11,5 +11,8 @@ class format_column:
     total = True
     note = 'element formatting (f-strings, str(), isoformat()) is uninterpreted and assumed not to raise for builtin scalars'
 
+    def requires(col):
+        return S.truthful(col)
+
     def ensures(col, max_preview, result):
         return len(result) == S.preview_rows(len(col._underlying), max_preview)
